@@ -24,7 +24,7 @@ import z3
 
 from pyvc.core import (SV, SBool, SInt, SSeq, Obj, Val, VNone, BoolS, IntS, Cls, to_val, to_int, to_bool_term, cls_of, sub,
                        cls_const, class_axioms, Stub, PyRaise, Unsupported)
-from pyvc.driver import Ob
+from pyvc.driver import Ob, cover_hyps
 from pyvc.ground import Q
 from pyvc.env import _MISSING
 from pyvc.interp import Interp
@@ -197,7 +197,7 @@ def args_obligations(chk):
             chk.add(Ob(func, names[1], pid, hy + inr, to_val(v.at(SInt(i))) == want))
             chk.add(Ob(func, names[2], pid, hy + inr, z3.BoolVal(True) if not mode else to_val(v.at(SInt(i))) == z3.If(cls_of(evaluate_f(raw_i)) == TV, norm_tv(evaluate_f(raw_i)), evaluate_f(raw_i))))
         if results:
-            chk.add(Ob(func, f"cover(evaluate={mode})", "pre", results[0][0].hyps, z3.BoolVal(True), expect="sat"))
+            chk.add(Ob(func, f"cover(evaluate={mode})", "pre", cover_hyps(results), z3.BoolVal(True), expect="sat"))
         chk.trusted.update(I.assumed_used)
 
 
